@@ -980,25 +980,28 @@ def enumerations(ctx, R: Runner):
         idx += 1
         return ctx.mine(idx)
 
-    frac = 0.7 if q else 0.6
-    times = ctx.extra.setdefault("enumeration_section_s", {})
+    # items are collected per section first and then executed interleaved in proportion, so that a time
+    # cut-off under machine load thins every section instead of dropping the later ones
+    items = []
+    section = ["E1"]
 
-    def S(*a, **k):
-        if ctx.more(frac):
-            R.stream(*a, **k)
-        else:
-            ctx.count("enumeration_items_skipped_for_time")
+    def S(mode, descs, **k):
+        items.append((section[0], mode, descs, k))
 
     def mark(name):
-        times[name] = round(ctx.elapsed(), 1)
+        section[0] = name.split()[-1]
 
-    # E1 every named sequence, alone (all cuts x fire) in every mode, and embedded
+    # E0 core, never skipped for time: every named sequence alone, whole + every single cut x fire/no fire
+    for seq in model.named:
+        if mine():
+            ctx.count("table_entries_seen")
+            ctx.count("enumeration_items:E0")
+            R.stream("utf8", [["seq", seq]], sched="exhaustive", pairs=False)
+    # E1 every named sequence, alone (all cuts and cut pairs x fire patterns) in every mode, and embedded
     for si, seq in enumerate(model.named):
         for mi, mode in enumerate(MODES):
             if mine():
                 S(mode, [["seq", seq]], sched="exhaustive", pairs=not q or (si + mi) % 3 == 0)
-                if mode == "utf8":
-                    ctx.count("table_entries_seen")
         if mine():
             S("utf8", [["byte", 97], ["seq", seq], ["seq", seq], ["byte", 98]], sched="exhaustive", pairs=False)
         if mine():
@@ -1024,7 +1027,6 @@ def enumerations(ctx, R: Runner):
             cy = 33 + (cx * 7 + cb * 3) % 223
             batch.append(["x10", cb, cx, cy])
             batch.append(["x10", cb, cy, cx])
-            ctx.count("x10_reports", 2)
             if len(batch) >= 6:
                 S("utf8" if k % 3 else "narrow", batch, sched="random", nrand=2)
                 batch = []
@@ -1046,7 +1048,6 @@ def enumerations(ctx, R: Runner):
         for k, (x, y) in enumerate(sub):
             batch.append(["sgr", b, x, y, "Mm"[k & 1]])
             batch.append(["sgr", b, y, x, "mM"[k & 1]])
-            ctx.count("sgr_reports", 2)
             if len(batch) >= 4:
                 S(MODES[k % 3], batch, sched="random", nrand=2)
                 batch = []
@@ -1054,7 +1055,6 @@ def enumerations(ctx, R: Runner):
             S("utf8", [["sgr", b, 7, 12, fin]], sched="exhaustive", pairs=b < (32 if q else 256))
         # zero coordinates: outside the 1-based protocol, totality / fragmentation only
         S("narrow", [["sgr", b, 0, 0, "M"], ["sgr", b, 0, 5, "m"], ["seq", "[A"]], sched="random", nrand=2)
-        ctx.count("sgr_zero_coordinate_reports_unjudged", 2)
     mark("before E4")
     # E4 CPR
     vals = [*range(1, 13), *COORDS[4:]] if q else [*range(1, 40), *COORDS[4:]]
@@ -1064,7 +1064,6 @@ def enumerations(ctx, R: Runner):
         batch = []
         for c in vals:
             batch.append(["cpr", r, c])
-            ctx.count("cpr_reports")
             if len(batch) >= 5:
                 S(MODES[c % 3], batch, sched="random", nrand=2)
                 batch = []
@@ -1079,7 +1078,6 @@ def enumerations(ctx, R: Runner):
     for i in range(0, len(cps), 6):
         if mine():
             S("utf8", [["utf8", c] for c in cps[i : i + 6]], sched="random", nrand=2)
-            ctx.count("utf8_chars", len(cps[i : i + 6]))
             if i % 60 == 0:
                 S("utf8", [["utf8", cps[i]], ["meta", ["utf8", cps[i + 1 if i + 1 < len(cps) else i]]]], sched="exhaustive")
     mark("before E6")
@@ -1091,7 +1089,6 @@ def enumerations(ctx, R: Runner):
         trails = list(range(0xA1 + lead % dstep, 0xFF, dstep))
         for i in range(0, len(trails), 6):
             S("wide", [["dbcs", lead, t] for t in trails[i : i + 6]], sched="random", nrand=2)
-            ctx.count("dbcs_chars", len(trails[i : i + 6]))
         S("wide", [["byte", 97], ["dbcs", lead, 0xA1 + lead % 94], ["seq", "[A"]], sched="exhaustive")
     mark("before E9")
     # E9 malformed / truncated sequences and invalid UTF-8 in context
@@ -1117,7 +1114,30 @@ def enumerations(ctx, R: Runner):
             S("utf8", [["u8bad", [b0, 0x80 | (b0 & 0x3F)]], ["byte", 49]], sched="exhaustive")
             S("wide", [["byte", b0], ["byte", 48 + b0 % 10], ["seq", "[A"]], sched="exhaustive")
             S("wide", [["byte", b0]], sched="none")
-    mark("end")
+    # ---- execute, interleaved
+    per = {}
+    for it in items:
+        per.setdefault(it[0], []).append(it)
+    order = []
+    for sec, lst in per.items():
+        n = len(lst)
+        order += [((i + 0.5) / n, sec, i) for i in range(n)]
+    order.sort()
+    frac = 0.7 if q else 0.6
+    tally = {"x10": "x10_reports", "sgr": "sgr_reports", "cpr": "cpr_reports", "utf8": "utf8_chars", "dbcs": "dbcs_chars"}
+    for _pos, sec, i in order:
+        _sec, mode, descs, k = per[sec][i]
+        if not ctx.more(frac):
+            ctx.count("enumeration_items_skipped_for_time")
+            continue
+        ctx.count(f"enumeration_items:{sec}")
+        for d in descs:
+            if d[0] == "sgr" and (d[2] < 1 or d[3] < 1):
+                ctx.count("sgr_zero_coordinate_reports_unjudged")
+            elif d[0] in tally:
+                ctx.count(tally[d[0]])
+        R.stream(mode, descs, **k)
+    ctx.extra["enumeration_items_total_this_shard0"] = len(items)
 
 
 def randoms(ctx, R: Runner):
